@@ -82,6 +82,7 @@ def run(tier, seed):
         chk.count("schedules_with_slot_reuse" if reused else "schedules_without_slot_reuse")
     chk.sample(dict(schedule=fq.describe(rows[4]["case"]), impl_log=rows[4]["impl"].get("log")))
     env_check(chk, rows, r, thorough)
+    validated += fq.run_runner_scenarios(chk, binary, r, thorough, TAGS + ("stable",), PROP, with_f7=False)
 
     chk.assumptions = [
         "slots as seen by real test processes (NEXTEST_TEST_* in the child's environment, alive intervals, "
